@@ -922,7 +922,7 @@ func (m *Machine) callBuiltin(fr *frame, fn *ssa.Builtin, args []Value) Value {
 	case "print", "println":
 		return nil
 	case "panic":
-		panic(&GoPanic{V: args[0], Site: "panic@" + fr.fn.String()})
+		panic(&GoPanic{V: m.panicValue(args[0]), Site: "panic@" + fr.fn.String()})
 	case "recover":
 		return m.doRecover(fr)
 	case "real", "imag", "complex", "close", "SliceData", "StringData", "String", "Slice", "Add":
